@@ -119,7 +119,7 @@ def walks_and_validate(ctx, label, tags, walks, plies, shards, probe_every, ille
             obs = ev.get("obs", {})
             ctx.violation(b["check"], {"trace_line": b["line"], "event": ev.get("ev"), "mv": ev.get("mv"),
                                        "fen": obs.get("fen"), "legals": obs.get("legals"), "st": obs.get("st")},
-                          {"kind": "trace", "trace": kept, "line": b["line"], "module": "ChessTrace"})
+                          {"kind": "trace", "record_args": [str(a) for a in h["args"]], "trace": kept, "line": b["line"], "module": "ChessTrace"})
         ctx.cov["states"] += res["distinct"]
         ctx.cov["transitions"] += res["generated"]
         if i == 0:
